@@ -198,16 +198,23 @@ func insertRows(r *simkit.Run, db *sql.DB, s *Sch, cell *int) {
 				if c.Gen != "" {
 					continue
 				}
-				fk := false
+				var fk *FK
 				for _, f := range tb.FKs {
 					if f.Cols[0] == c.Name {
-						fk = true
+						fk = f
 					}
 				}
 				*cell++
 				v := valueFor(c, *cell, t)
-				if fk {
+				if fk != nil {
 					v = "NULL"
+					// Reference an existing parent row (so that a cascade has something to act on).
+					if fk.RefTable != "" && t.Chance("real-reference", 2, 3) {
+						if keys := columnValues(db, fk.RefTable, fk.RefCols[0]); len(keys) > 0 {
+							v = keys[t.Draw("parent-row", len(keys))]
+							r.Probe("child-row-references-parent-row")
+						}
+					}
 				}
 				cols = append(cols, q(c.Name))
 				vals = append(vals, v)
@@ -682,12 +689,18 @@ func liveModel(desired *Sch, obs *sql.DB) *Sch {
 			tb.Cols = append(tb.Cols, col)
 		}
 		cs.Close()
-		fs, err := obs.Query("SELECT \"from\" FROM pragma_foreign_key_list(?) WHERE seq = 0", n)
+		// Single-column foreign keys: child rows get real references (composite ones stay NULL).
+		fs, err := obs.Query("SELECT \"from\", \"table\", coalesce(\"to\", ''), (SELECT count(*) FROM pragma_foreign_key_list(?) f2 WHERE f2.id = f.id) FROM pragma_foreign_key_list(?) f WHERE seq = 0", n, n)
 		if err == nil {
 			for fs.Next() {
-				var c string
-				fs.Scan(&c)
-				tb.FKs = append(tb.FKs, &FK{Cols: []string{c}})
+				var c, rt, rc string
+				var parts int
+				fs.Scan(&c, &rt, &rc, &parts)
+				fk := &FK{Cols: []string{c}}
+				if parts == 1 && rc != "" {
+					fk.RefTable, fk.RefCols = rt, []string{rc}
+				}
+				tb.FKs = append(tb.FKs, fk)
 			}
 			fs.Close()
 		}
@@ -1167,4 +1180,20 @@ func checkCLIExports(ctx context.Context, r *simkit.Run, w *world, dir, url stri
 	if d := DiffCatalogs(exp, live); d != "" {
 		r.Fail(prop, "sql-export", "cli-sql-export-catalog-differs/"+reached, "step %d: the database recreated from `schema inspect --format '{{ sql . }}'` differs from the original (live = recreated, want = original):\n%s", step, d)
 	}
+}
+
+// columnValues returns the quoted values of one column, ordered.
+func columnValues(db *sql.DB, table, col string) []string {
+	rows, err := db.Query("SELECT quote(" + q(col) + ") FROM " + q(table) + " WHERE " + q(col) + " IS NOT NULL ORDER BY 1")
+	if err != nil {
+		return nil
+	}
+	defer rows.Close()
+	var out []string
+	for rows.Next() {
+		var v string
+		rows.Scan(&v)
+		out = append(out, v)
+	}
+	return out
 }
